@@ -46,6 +46,13 @@ def with_exit_offsets(code) -> frozenset:
             # no signal check happens between the raise inside the body and that call either
             if a.opname == 'PUSH_EXC_INFO' and b.opname == 'WITH_EXCEPT_START':
                 offs.add(a.offset)
+        # a line that starts with a NOP (`try:`, `else:` ...): nothing can be raised by a NOP and no
+        # signal check happens there - the compiler does not even cover it with the enclosing
+        # exception table, so an exception injected exactly there would skip every handler and every
+        # finally clause of the function, which no real execution can do
+        for a in ins:
+            if a.opname == 'NOP' and a.starts_line is not None:
+                offs.add(a.offset)
         r = _WITH_EXIT[code] = frozenset(offs)
     return r
 
